@@ -18,6 +18,8 @@ def labels_of(run: Run) -> list[str]:
     out.append("maximize" if sc["maximize"] else "minimize")
     out.append("hibernation" if sc["options"].get("hibernation") else "no-hibernation")
     out.append("objective=" + sc["objective"]["family"])
+    if getattr(run, "via_hms", False):
+        out.append("entered_through_hms()")
     if sc.get("use_cache"):
         out.append("function_problem_caches")
     if run.tree is not None:
